@@ -56,6 +56,17 @@ CHECKS = {
              "transport is the harness transport (real transports are covered by C01).",
         technique="TLA+ model checking (TLC) + gated edge-cover replay through a harness transport",
         ref="DESIGN.md section 4, C06"),
+    "C07": dict(
+        text="TLA+ specs proto/Survey.tla (surveyor contexts: survey id by tag, absolute deadline under virtual time, per-context response "
+             "queue and pending receives with their own deadlines, per-pipe survey queue; respondents as environment injecting current/"
+             "old/unknown/no-bit/short responses) and proto/Rep.tla replayed on the RESPONDENT (respond.c is the same state machine as "
+             "rep.c), model checked for: a delivered response answers the live survey of that context and is handed over no later "
+             "than its deadline, pending receives never outlive the deadline and fail with ETIMEDOUT, ESTATE rules, response routing by "
+             "backtrace, readiness; TLC -simulate behaviours replayed on the real sockets under the virtual clock.",
+        note="Trusted: TLC, harness, NNG_VERIF virtual clock, ASan/UBSan. 2 contexts, 2-3 pipes, macro-step grain (a response racing the "
+             "expire thread inside one step is not enumerated); queue capacities 8/128 are not reached within the bounds.",
+        technique="TLA+ model checking (TLC) + simulation replay through a harness transport with virtual time",
+        ref="DESIGN.md section 4, C07"),
     "C08": dict(
         text="TLA+ spec proto/Pair.tla (pair0 and pair1 cooked; the state of pair*_sock plus the harness transport) in macro steps "
              "(API call or peer event, then run to quiescence), model checked for one peer at a time, FIFO/lossless both ways while "
